@@ -73,6 +73,8 @@ SetRemote(ty, src, bad) ==
   /\ src = "empty" => ty = "rollback"
   /\ bad # "none" => ty # "rollback" /\ src = "peer"
   /\ src = "peerx" => ty = "offer"
+  \* "current": the text of the remote description that is in effect, sent again (as an offer, or on a rollback)
+  /\ src = "current" => (ty \in {"offer", "rollback"} /\ (pr # None \/ cr # None))
   /\ IF ok THEN /\ sig' = JsepTarget(sig, "remote", ty)
                 /\ SetSlots("remote", ty)
                 /\ neg' = IF ty = "answer" /\ neg < 2 THEN neg + 1 ELSE neg
@@ -88,7 +90,7 @@ SetRemote(ty, src, bad) ==
 Next == \/ CreateOffer
         \/ CreateAnswer
         \/ \E ty \in SType, src \in LocalSrc : SetLocal(ty, src)
-        \/ \E ty \in SType, src \in {"peer", "peerx", "empty"}, bad \in BadClasses \cup {"none"} : SetRemote(ty, src, bad)
+        \/ \E ty \in SType, src \in {"peer", "peerx", "current", "empty"}, bad \in BadClasses \cup {"none"} : SetRemote(ty, src, bad)
 
 Spec == Init /\ [][Next]_vars
 
